@@ -825,7 +825,11 @@ namespace ip {
 
 				const bool is_writeable = m_bytes_in_flight + m_mss <= m_cwnd;
 
-				if (!was_writeable && is_writeable)
+				// wake a blocked writer whenever there is room again. (Requiring
+				// a blocked->writeable transition on this very ACK misses the
+				// writer when the room was made earlier, e.g. by a drop)
+				(void)was_writeable;
+				if (is_writeable)
 					maybe_wakeup_writer();
 
 				return;
